@@ -459,7 +459,48 @@ def rule_collect_reentry(ctx):
                         if not ok:
                             r.violate(root, "flag-writer", "writes the `collecting` flag outside Local::unpin: clearing it "
                                       "during a collection lets a nested unpin collect again", e.loc())
+    # writers of the thread-wide flag: a function may clear it only if it owns it - it tested it clear before its first
+    # write - or puts back the value it read (save/restore).  Setting and clearing it unconditionally inside a running
+    # collection (finalize of a temporary participant, say) re-opens the gate for every later nested unpin.
+    def _tls_flag(a):
+        return any(x[0] == "tlsval" and "Cell<bool>" in show(x) for x in subterms(a))
+    ntw = 0
+    for name, body in sorted(prog.bodies.items()):
+        if not any(norm(c.target or "") in ("std::thread::LocalKey::with", "std::thread::LocalKey::try_with")
+                   for (_, _, c) in body.calls()):
+            continue
+        for root in prog.path_roots(name):
+            bad, wrote = None, False
+            for p in Exec(prog, unroll=2).paths(prog.body(root)) if root == UNPIN else ctx.ex.paths(prog.body(root)):
+                ws = [i for i, e in enumerate(p.events) if e.kind == "call" and e.ntarget == "std::cell::Cell::set"
+                      and _tls_flag(e.args[0])]
+                if not ws:
+                    continue
+                ntw += 1
+                wrote = True
+                r.paths += 1
+                pre = p.events[:ws[0]]
+                owned = any(e.kind == "cond" and isinstance(e.term, tuple) and e.term[0] == "call" and
+                            norm(e.term[1]) == "std::cell::Cell::get" and _tls_flag(e.term[2][0]) and e.value == 0 for e in pre)
+                reads = [e for e in pre if e.kind == "call" and e.ntarget == "std::cell::Cell::get" and _tls_flag(e.args[0])]
+                last = p.events[ws[-1]].args[1]
+                restored = const_of(last) is None and any(e.result == x for e in reads for x in subterms(last))
+                leaves_set = const_of(last) == 1   # never cleared on this path: can only over-block, F15-safe
+                if not (owned or restored or leaves_set) and bad is None:
+                    bad = p.events[ws[-1]]
+            if not wrote:
+                continue
+            ok = bad is None
+            r.instance("%s writes the thread-wide collecting flag only when it owns it" % root, ok)
+            r.functions.add(root)
+            if not ok:
+                r.violate(root, "thread-flag-owner", "writes the thread-wide collecting flag without having tested it clear (and "
+                          "without restoring the value read): when this runs inside a collection - a destructor dropping a "
+                          "handle or the guard of a temporary participant - the flag is cleared under the running collection "
+                          "and every later unpin in a destructor nests a collection of its own", bad.loc())
     r.require(n, 1, "collect call paths in unpin")
+    if ntw < 1 and not r.violations:
+        r.floor_failures.append("REC-COLLECT-REENTRY: found no write of the thread-wide flag")
     if nw < 2 and not r.violations:
         r.floor_failures.append("REC-COLLECT-REENTRY: found %d writes of Local.collecting, expected at least 2" % nw)
     return r
